@@ -130,7 +130,7 @@ Definition to_integer (v : pyval) : out pyval :=
                  if str_in l FALSE_VALUES then Some (PInt 0)
                  else if str_in l TRUE_VALUES then Some (PInt 1) else None
              | PInt _ => Some d
-             | PBool _ => Some d
+             | PBool b => Some (PInt (if b then 1 else 0))    (* isinstance(data, int): t(data) *)
              | _ => None
              end in
       match early with
